@@ -6,6 +6,7 @@
   the compiled C runs with a recording callback), not modelled.
 -/
 import Cellml.Analyser.External
+import Cellml.Analyser.ExtFlags
 namespace Cellml.Props.C20
 open Cellml.Analyser
 
@@ -28,6 +29,27 @@ theorem sweep_keeps (s : St) (nla : Bool) : Keeps s (sweep s nla).1 := keeps_swe
 def shown (v : V) : Option Slot := if v.ext then none else some (slot v)
 theorem external_iff_marked (v : V) : shown v = none ↔ v.ext = true := by
   unfold shown; split <;> simp_all
+
+/-- **what reads an external variable is not a constant**: after the analysis, an equation that determines an ordinary
+    unknown and mentions (outside `diff`) a class marked external which is not one of its own unknowns is never typed
+    as a true constant or variable-based constant equation — its unknown is computed in `computeVariables`, after the
+    callback has supplied the external value, whatever the type of the marked class itself (even if an equation of its
+    own makes it a computed true constant) and whatever the order of the equations -/
+theorem reads_external_not_constant (s : St) (hp : ∀ e ∈ s.eqs, e.ty = .unknown) (i v : Nat) (e0 e : E)
+    (h0 : s.eqs[i]? = some e0) (h : (analyse s).eqs[i]? = some e) (ht : e.ty ≠ .unknown) (hne : e.vars ≠ [])
+    (hv : v ∈ e0.vars) (hext : (s.v v).ext = true) (hown : v ∉ e.unknowns) :
+    e.ty ≠ .trueConstant ∧ e.ty ≠ .varConstant :=
+  (analyse_ext s hp i e0 e h0 h).2 ht hne ⟨v, hv, hext, hown⟩
+
+/-! non-vacuity and the role of the order: a = 3 (marked external) listed before / after b = a + 1 -/
+def trueConst (aFirst : Bool) : St :=
+  let ea : E := { comp := 0, vars := [0], odes := [], all := [0], lhs := some (0, false), rhs := none }
+  let eb : E := { comp := 0, vars := [1, 0], odes := [], all := [1, 0], lhs := some (1, false), rhs := none }
+  { vars := [⟨.unknown, none, true, 0⟩, ⟨.unknown, none, false, 0⟩], eqs := if aFirst then [ea, eb] else [eb, ea] }
+
+example : (analyse (trueConst true)).eqs.map (·.ty) = [.trueConstant, .algebraic] := by decide
+example : (analyse (trueConst false)).eqs.map (·.ty) = [.algebraic, .trueConstant] := by decide
+example : ((analyse (trueConst true)).vars.map (·.ty)) = [.ctc, .algebraic] := by decide
 
 /-! non-vacuity: y = x + 1 with x unknown is underconstrained; marking x makes it valid -/
 def under (ext : Bool) : St :=
